@@ -257,6 +257,12 @@ func c14RequestOf(class string, mk func(method, url, body string) *http.Request)
 		return mk("HEAD", "/items?n=1", "")
 	case "inv_nobody":
 		return mk("POST", "/items?n=1", "")
+	case "inv_ctype":
+		r := mk("POST", "/items?n=1", `{"name":"a"}`)
+		r.Header.Set("Content-Type", "text/plain")
+		return r
+	case "inv_noparam":
+		return mk("POST", "/items", `{"name":"a"}`)
 	case "inv_body":
 		return mk("POST", "/items?n=1", `{"name":1}`)
 	case "inv_param":
